@@ -696,15 +696,12 @@ def json_key(shape):
 IDENT = z3.Concat(z3.Union(z3.Range("a", "z"), z3.Re("_")), z3.Star(z3.Union(z3.Range("a", "z"), z3.Range("0", "9"), z3.Re("_"))))
 
 
-def two_calls_obligation(run, prog, pendings=1, oid="cache_two_calls"):
-    world = World(prog, record_ops=False, cache="empty")
-    world.max_pending = pendings
-    lemmas = {}
-
+def install_format_hook(world, lemmas):
     def format_hook(ex, shape, pieces):
         """The cache key as an uninterpreted function of the formatted arguments; injectivity of the ACTUAL template is a lemma discharged by
         cvc5 (for identifier names), and is assumed only if cvc5 proves it."""
         args = [p for p, sh in zip(pieces, shape) if sh[0] == "arg"]
+        kinds = [sh for sh in shape if sh[0] == "arg"]
         f = z3.Function("fmt_" + str(abs(hash(json_key(shape))) % 100000), *([z3.StringSort()] * len(args) + [z3.StringSort()]))
         t = f(*args)
         inj = format_injective(shape)
@@ -713,11 +710,18 @@ def two_calls_obligation(run, prog, pendings=1, oid="cache_two_calls"):
         if inj:
             for (pf, pargs) in prev:
                 if pf.eq(f):
-                    guard = z3.And([fn_registered(a) for a, sh in zip(pargs + args, [x for x in shape if x[0] == "arg"] * 2) if sh[1] == "display"])
+                    guard = z3.And([fn_registered(a) for a, sh in zip(pargs + args, kinds * 2) if sh[1] == "display"] + [z3.BoolVal(True)])
                     ex.assume(z3.Implies(guard, (f(*pargs) == t) == z3.And([x == y for x, y in zip(pargs, args)])))
         ex.fmt_apps = prev + [(f, args)]
         return t
     world.format_hook = format_hook
+
+
+def two_calls_obligation(run, prog, pendings=1, oid="cache_two_calls"):
+    world = World(prog, record_ops=False, cache="empty")
+    world.max_pending = pendings
+    lemmas = {}
+    install_format_hook(world, lemmas)
     n = [z3.String("call.name0"), z3.String("call.name1")]
     p = [z3.Const("call.param0", VAL), z3.Const("call.param1", VAL)]
     results = {}
@@ -1017,6 +1021,12 @@ def run_parts(run, parts, only=None, pendings=1, kinds=None, mandatory=True):
         ks = (0, 1, 2, 3) if run.tier == "quick" else (0, 1, 2, 3, 4)
         res = ruleset_obligations(run, prog, ks, pendings=pendings, only=only)
         finish_family(run, helper, res, lambda info, cex: ruleset_scenario(info["k"], cex), mandatory)
+    if "paths" in parts:
+        res = path_obligations(run, prog, only=only)
+        finish_family(run, helper, res, path_scenario, mandatory)
+    if "calling_rules" in parts and (not only or only in "evaluate_value_2_calling_rules"):
+        d = rules_with_calls_obligation(run, prog, 2, pendings=pendings)
+        finish_family(run, helper, [(d, {"k": 2})], lambda info, cex: rules_with_calls_scenario(info["k"], cex), mandatory)
     if "two_calls" in parts and (not only or only in "cache_two_calls"):
         d = two_calls_obligation(run, prog, pendings=pendings)
         finish_family(run, helper, [(d, {})], lambda info, cex: e3replay.two_calls_build(cex), mandatory)
@@ -1027,3 +1037,200 @@ def run_parts(run, parts, only=None, pendings=1, kinds=None, mandatory=True):
     note_mir(run, prog)
     run.assumptions += E3_ASSUMPTIONS
     return prog
+
+
+# ================================================================================================ C09 / C11: two rules calling deterministic user functions
+fnres_ok = z3.Function("fnres_ok", z3.StringSort(), VAL, z3.BoolSort())
+fnres_val = z3.Function("fnres_val", z3.StringSort(), VAL, VAL)
+fnres_err = z3.Function("fnres_err", z3.StringSort(), VAL, ANYHOW)
+
+
+class DetWorld(RulesWorld):
+    """Rules whose expressions are real call nodes `name_i(leaf_i)`; user functions are deterministic: the result of f on p is an
+    uninterpreted function of (f, p), so `the result of the rule on its own` is expressible."""
+
+    def begin(self, ex):
+        super().begin(ex)
+        en = self.prog.layouts.canon(["expr", "Expr"])
+        self.fn_names = [z3.String(f"rule{i}.fn") for i in range(self.k)]
+        for i in range(self.k):
+            self.rules_vec.items[i].fields[2] = Agg(en, "Function", {0: Str(self.fn_names[i]), 1: boxed_leaf(i)})
+        if ex is not None:
+            for nm in self.fn_names:
+                ex.assume(z3.Implies(fn_registered(nm), z3.And(z3.InRe(nm, IDENT), nm != z3.StringVal("probe"))))
+            vs = [L.leaf_val(i) for i in range(self.k)]
+            for i in range(self.k):
+                for j in range(i + 1, self.k):
+                    ex.assume((dbg_of(vs[i]) == dbg_of(vs[j])) == (vs[i] == vs[j]))
+
+    def poll_userfn(self, ex, fut):
+        if fut.polls == 0:
+            name, param = fut.data
+            fut.data = (name, param, self.n_call)
+            self.n_call += 1
+            ex.log.append(("call", name, param))
+        name, param, n = fut.data
+
+        def ready():
+            okb = fnres_ok(name, param)
+            if ex.choose([("ok", okb), ("err", z3.Not(okb))], "call-result") == "ok":
+                return std.ok(SymVal(fnres_val(name, param)))
+            return std.err(Opq("anyhow", fnres_err(name, param)))
+        return self._pending_or(ex, fut, f"call{n}", ready)
+
+
+class StandaloneExp(Exp):
+    """Every outcome equals what its rule gives on its own (deterministic functions)."""
+
+    def __init__(self, k):
+        super().__init__("standalone", k)
+
+    def __call__(self, ex, r):
+        k = self.terms[0]
+        if not (isinstance(r, Agg) and r.ty == "Result" and r.variant == "Ok"):
+            return False
+        v = r.fields[0]
+        if not (isinstance(v, VecV) and v.items is not None and len(v.items) == k):
+            return False
+        conds = []
+        for i, o in enumerate(v.items):
+            val, rule = o.fields.get(0), o.fields.get(1)
+            if not (isinstance(rule, Ref) and rule.cell is ex.h.ruleset_cell and rule.path == (("f", None, 0), ("i", i))):
+                return False
+            nm, p = ex.h.fn_names[i], L.leaf_val(i)
+            alone = z3.If(z3.Not(L.leaf_ok(i)), _b(res_is_err_opaque(ex, val, L.leaf_err(i))),
+                          z3.If(z3.Not(fn_registered(nm)), _b(res_is_err_variant(ex, val, "UnknownUserFunction", nm)),
+                                z3.If(fnres_ok(nm, p), _b(res_is_ok_val(ex, val, fnres_val(nm, p))),
+                                      _b(err_userfn(nm, fnres_err(nm, p))(ex, val)))))
+            conds.append(alone)
+        return z3.And(conds) if conds else True
+
+
+def _b(x):
+    return z3.BoolVal(x) if isinstance(x, bool) else x
+
+
+def rules_with_calls_obligation(run, prog, k=2, pendings=1, oid=None):
+    oid = oid or f"evaluate_value_{k}_calling_rules"
+    world = DetWorld(prog, k)
+    world.max_pending = pendings
+    lemmas = {}
+    install_format_hook(world, lemmas)
+
+    def body(ex):
+        co = ex.call(None, "ruleset::RuleSet::evaluate_value", [Ref(world.ruleset_cell), Ref(world.facts_cell)])
+        return drive(ex, "{async fn body of ruleset::RuleSet::evaluate_value()}", co)
+    cases = [Case("each-rule-as-on-its-own", z3.BoolVal(True), None, StandaloneExp(k))]
+    d = check_paths(run, prog, world, oid, body, cases, "ruleset-loop", meta={"rules": k, "pendings_per_await": pendings, "functions": "deterministic"},
+                    solver_timeout_ms=60000)
+    d["format_template_injective_lemma_cvc5"] = lemmas
+    return d
+
+
+def rules_with_calls_scenario(k, cex):
+    from .e3replay import Concretizer, leaf_plans, probe
+    M = cex["_model"]
+    C = Concretizer(M)
+    names = [C.string(z3.String(f"rule{i}.fn")) for i in range(k)]
+    plans = leaf_plans(C, range(k))
+    builder = [{"op": "probe"}]
+    table = {}
+    for i in range(k):
+        if C.boolean(L.leaf_ok(i)) and C.boolean(fn_registered(z3.StringVal(names[i]))):
+            p = L.leaf_val(i)
+            nm = z3.StringVal(names[i])
+            res = {"ok": C.value(fnres_val(nm, p))} if C.boolean(fnres_ok(nm, p)) else {"err": f"fail-{names[i]}-{i}"}
+            table.setdefault(names[i], []).append([C.value(p), res])
+    for nm in sorted(set(names)):
+        if C.boolean(fn_registered(z3.StringVal(nm))):
+            builder.append({"op": "function", "name": nm, "cacheable": C.boolean(fn_cacheable(z3.StringVal(nm))), "results": [], "by_param": table.get(nm, [])})
+    exp_vals = []
+    for i in range(k):
+        if not C.boolean(L.leaf_ok(i)):
+            exp_vals.append({"err": {"variant": "UserFunctionError", "a": "probe", "b": f"leaf{i}"}})
+        elif not C.boolean(fn_registered(z3.StringVal(names[i]))):
+            exp_vals.append({"err": {"variant": "UnknownUserFunction", "a": names[i]}})
+        else:
+            ent = [r for pv, r in table[names[i]] if json_key(pv) == json_key(C.value(L.leaf_val(i)))][0]
+            exp_vals.append(ent if "ok" in ent else {"err": {"variant": "UserFunctionError", "a": names[i], "b": ent["err"]}})
+    rules = [{"op": "rule", "name": f"r{i}", "expr": {"k": "Function", "n": names[i], "c": [probe(i)]}} for i in range(k)]
+    sc = {"facts": {"t": "None"}, "probes": plans, "builder": builder + rules}
+    return sc, 0, ("outcomes", exp_vals, [f"r{i}" for i in range(k)]), None
+
+
+# ================================================================================================ C10: access paths of two and three steps, executed in full
+def path_obligations(run, prog, only=None):
+    """`name.step` and `name.step.step` with every level executed from the MIR (no oracle): the composition of the single steps."""
+    out = []
+    en = prog.layouts.canon(["expr", "Expr"])
+    name = z3.String("ref.name")
+    FACTS = z3.StringVal("facts")
+
+    def ref_cases(world):
+        f = world.facts
+        m = VAL.m(f)
+        return [("whole", name == FACTS, f, None),
+                ("field", z3.And(name != FACTS, VAL.is_Map(f), map_has(m, name)), map_at(m, name), None),
+                ("missing", z3.And(name != FACTS, VAL.is_Map(f), z3.Not(map_has(m, name))), None, err_var("UnknownRef", name)),
+                ("not-a-map", z3.And(name != FACTS, z3.Not(VAL.is_Map(f))), None, err_var("InvalidType"))]
+
+    def step_cases(base, kind, idx):
+        """[(label, guard, value term | None, error Exp | None)] for one index step on the value `base`"""
+        if kind == "Map":
+            m = VAL.m(base)
+            return [("none", VAL.is_None_(base), VAL.None_, None),
+                    ("present", z3.And(VAL.is_Map(base), map_has(m, idx)), map_at(m, idx), None),
+                    ("absent", z3.And(VAL.is_Map(base), z3.Not(map_has(m, idx))), VAL.None_, None),
+                    ("wrong-kind", z3.And(z3.Not(VAL.is_Map(base)), z3.Not(VAL.is_None_(base))), None, err_var("InvalidType"))]
+        v = VAL.v(base)
+        return [("none", VAL.is_None_(base), VAL.None_, None),
+                ("present", z3.And(VAL.is_Vec(base), idx < vec_len(v)), vec_at(v, idx), None),
+                ("absent", z3.And(VAL.is_Vec(base), idx >= vec_len(v)), VAL.None_, None),
+                ("wrong-kind", z3.And(z3.Not(VAL.is_Vec(base)), z3.Not(VAL.is_None_(base))), None, err_var("InvalidType"))]
+
+    key1, key2, pos1 = z3.String("step1.key"), z3.String("step2.key"), z3.Int("step1.pos")
+    shapes = {"path_name_field": [("Map", key1)], "path_name_position": [("Vec", pos1)], "path_name_field_field": [("Map", key1), ("Map", key2)],
+              "path_name_position_field": [("Vec", pos1), ("Map", key2)]}
+    for oid, steps in shapes.items():
+        if only and only not in oid:
+            continue
+        world = World(prog, record_ops=False)
+
+        def body(ex, world=world, steps=steps):
+            ex.assume(z3.And(pos1 >= 0, pos1 <= (1 << 64) - 1))
+            e = Agg(en, "Reference", {0: Str(name)})
+            for kind, idx in steps:
+                ix = Agg("Index", "Map", {0: Str(idx)}) if kind == "Map" else Agg("Index", "Vec", {0: IntV(idx, "usize")})
+                e = Agg(en, "Index", {0: std.mkbox(e, "path-base"), 1: ix})
+            return run_root(ex, world, e)
+        world.begin(None)
+        partial = [(lab, g, val, er) for lab, g, val, er in ref_cases(world)]
+        for kind, idx in steps:
+            nxt = []
+            for lab, g, val, er in partial:
+                if er is not None:
+                    nxt.append((lab, g, None, er))
+                    continue
+                for l2, g2, v2, e2 in step_cases(val, kind, idx):
+                    nxt.append((lab + "/" + l2, z3.And(g, g2), v2, e2))
+            partial = nxt
+        cases = [Case(lab, g, [], ok_val(val) if er is None else er) for lab, g, val, er in partial]
+        d = check_paths(run, prog, world, oid, body, cases, "access-path", meta={"steps": len(steps)}, mandatory_cases=[])
+        out.append((d, {"path": oid, "steps": [(k, str(i)) for k, i in steps]}))
+    return out
+
+
+def path_scenario(info, cex):
+    from .e3replay import Concretizer
+    M = cex["_model"]
+    key_terms = [z3.String(n) for n in ("ref.name", "step1.key", "step2.key")]
+    C = Concretizer(M, key_terms)
+    e = {"k": "Reference", "n": C.string(z3.String("ref.name"))}
+    for kind, idx in info["steps"]:
+        if kind == "Map":
+            e = {"k": "Index", "c": [e], "i": {"f": C.string(z3.String(idx))}}
+        else:
+            e = {"k": "Index", "c": [e], "i": {"n": C.integer(z3.Int(idx))}}
+    sc = {"facts": C.value(z3.Const("facts", VAL)), "builder": [{"op": "rule", "name": "main", "expr": e}]}
+    from .e3replay import expected_result
+    return sc, 0, expected_result(C, cex["_case"].result, None), None
